@@ -233,38 +233,26 @@ _IMPL_RE = re.compile(r"^impl\b(.*?)\{?\s*$")
 
 
 def _fn_ranges(lines):
-    """(start, end, qualified name) of every fn in the generated file, by brace counting from the signature"""
-    out = []
+    """(start, end, qualified name) of every fn of the generated file: a function extends from its
+    signature line to the line before the next fn signature (contracts contain braces, so brace
+    counting from the signature would end inside the contract)"""
+    starts = []
     cur_impl = None
     for i, l in enumerate(lines):
         if l.startswith("impl"):
             m = re.match(r"impl(?:\s*<[^>]*>)?\s+(?:(.+?)\s+for\s+)?([A-Za-z0-9_:<>\s,&']+?)\s*\{", l)
             if m:
-                ty = m.group(2).strip().replace(" ", "")
-                cur_impl = ty
+                cur_impl = m.group(2).strip().replace(" ", "")
         elif l.startswith("}"):
             cur_impl = None
         m = _FN_RE.match(l)
         if m:
             name = m.group(1)
-            q = (cur_impl + "::" + name) if (cur_impl and l.startswith((" ", "\t")) is False and False) else name
-            if cur_impl:
-                q = cur_impl + "::" + name
-            # find body end
-            depth = 0
-            seen = False
-            j = i
-            while j < len(lines):
-                for ch in lines[j]:
-                    if ch == "{":
-                        depth += 1
-                        seen = True
-                    elif ch == "}":
-                        depth -= 1
-                if seen and depth <= 0:
-                    break
-                j += 1
-            out.append((i + 1, j + 1, q))
+            starts.append((i + 1, (cur_impl + "::" + name) if cur_impl else name))
+    out = []
+    for k, (ln, q) in enumerate(starts):
+        end = (starts[k + 1][0] - 1) if k + 1 < len(starts) else len(lines)
+        out.append((ln, end, q))
     return out
 
 
